@@ -34,6 +34,9 @@ def strategy(tier, flags):
     )
 
 
+WORD_FORMS = (list, lambda w: iter(list(w)), tuple)
+
+
 def has_unit_cycle(R):
     unit = {}
     for h, b in R.prods:
@@ -101,7 +104,10 @@ def run_parser(failures, stats, name, call, refusal, words, lang, prods, start, 
         if any(f["sub"].startswith(name) for f in failures):
             break
         try:
-            tree = call(list(w))
+            # the word goes in as a list, a tuple or a one-shot iterator in turn (all are "iterables of terminals")
+            # only where the documentation says "iterable" (the LL(1) and recursive-descent parsers document a list)
+            form = WORD_FORMS[len(w) % 3] if name in ("cnf_tree", "fcfg_tree") else list
+            tree = call(form(w))
         except refusal:
             if w in lang:
                 failures.append(fail(name, "member_refused", w))
